@@ -13,7 +13,6 @@ import faulthandler
 import hashlib
 import importlib
 import json
-import multiprocessing
 import os
 import random
 import subprocess
@@ -243,12 +242,38 @@ def write_replay(prop_id, seed, shard, fail, cfg, use_narrow=True):
     return path
 
 
+def write_shard_replay(prop_id, seed, shard, tier, examples, fail, cfg):
+    d = os.path.join(VERIF, "replays")
+    os.makedirs(d, exist_ok=True)
+    path = os.path.join(d, f"{prop_id}-{seed}-{shard}-shard.json")
+    viols = [{k: x for k, x in v.items() if k != "narrow"} for v in fail["violations"]]
+    with open(path, "w") as f:
+        json.dump({"property": prop_id, "kind": "shard", "seed": seed, "shard": shard, "tier": tier, "examples": examples,
+                   "swarm": cfg, "violations": viols, "last_world": fail["spec"],
+                   "note": "history-dependent failure: the replay re-runs the whole shard (its sequence of worlds) in a "
+                           "fresh interpreter; last_world is the world in which the violation was observed"},
+                  f, indent=1, sort_keys=True)
+    return path
+
+
 def replay_file(path, quiet=False):
     """Re-execute a replay file in this interpreter.  -> exit code."""
     with open(path) as f:
         doc = json.load(f)
     prop_id = doc["property"]
     known = load_known()
+    if doc.get("kind") == "shard":
+        r = run_shard(prop_id, doc["seed"], doc["shard"], doc["tier"], doc["examples"], 900)
+        got = r["violation"]["violations"] if r.get("violation") else []
+        for v in got:
+            print("NEW   " + json.dumps({k: x for k, x in v.items() if k != "narrow"}, sort_keys=True))
+        print("REPLAY-CLAUSES " + json.dumps(sorted(v["clause"] for v in got)))
+        print("REPLAY-TRACE " + r["shard_digest"])
+        if got:
+            print(f"VIOLATION property={prop_id} replay={path}")
+            return 1
+        print("no unlisted violation reproduced")
+        return 0
     viols, ctx = evaluate_spec(prop_id, doc["spec"])
     new = [v for v in viols if not match_known(known, prop_id, v)]
     for v in viols:
@@ -275,23 +300,34 @@ def confirm_in_fresh_interpreter(path, clauses):
     return p.returncode == 1 and got is not None and set(clauses) & set(got), p.stdout[-2000:] + p.stderr[-2000:]
 
 
-def make_pools(workers):
-    ctx = multiprocessing.get_context("spawn")
-    pools = []
-    half = max(1, workers // 2)
-    for hs, n in (("0", half), ("4242", max(1, workers - half))):
-        os.environ["PYTHONHASHSEED"] = hs
-        pool = cf.ProcessPoolExecutor(max_workers=n, mp_context=ctx, initializer=_init_worker)
-        # force the workers to start now, under this PYTHONHASHSEED
-        list(pool.map(_noop, range(n)))
-        pools.append(pool)
-    os.environ.pop("PYTHONHASHSEED", None)
-    return pools
+def run_shard_in_fresh_interpreter(prop_id, seed, shard, tier, examples, timeout, hashseed):
+    """Every shard runs in its own interpreter: the shard is the unit of process history, so its result is a
+    function of (seed, shard) alone and re-running it in another fresh interpreter reproduces it exactly."""
+    import tempfile
+    fd, out = tempfile.mkstemp(prefix="zqv-shard-", suffix=".json", dir=_scratch_dir())
+    os.close(fd)
+    env = dict(os.environ, PYTHONHASHSEED=str(hashseed), PYTHONWARNINGS="ignore", PYTHONDONTWRITEBYTECODE="1")
+    try:
+        p = subprocess.run([PY, os.path.join(VERIF, "sim", "cli.py"), "shard", prop_id, str(seed), str(shard), tier,
+                            str(examples), str(timeout), out], env=env, capture_output=True, text=True,
+                           timeout=timeout + 120)
+        try:
+            with open(out) as f:
+                return json.load(f)
+        except Exception:
+            raise RuntimeError(f"shard process exit {p.returncode}: {p.stderr[-1500:]}")
+    finally:
+        try:
+            os.remove(out)
+        except OSError:
+            pass
 
 
-def _noop(_x):
-    time.sleep(0.05)
-    return os.environ.get("PYTHONHASHSEED")
+def _scratch_dir():
+    return "/dev/shm" if os.path.isdir("/dev/shm") and os.access("/dev/shm", os.W_OK) else None
+
+
+HASHSEEDS = ("0", "4242")
 
 
 def run_check(prop_id, tier, seed=None, workers=None, shards=None, examples=None, budget_s=None,
@@ -329,18 +365,19 @@ def run_check(prop_id, tier, seed=None, workers=None, shards=None, examples=None
         violations.append(path)
 
     # 2. seeded search over worlds / schedules / fault plans
-    pools = make_pools(workers)
     results = {}
     det_pairs = {}
     timeout = tcfg.get("shard_timeout", 900)
+    pool = cf.ThreadPoolExecutor(max_workers=workers)
     try:
         futs = {}
         for s in range(tcfg["shards"]):
-            pool = pools[s % 2]
-            futs[pool.submit(run_shard, prop_id, seed, s, tier, tcfg["examples"], timeout)] = ("main", s)
+            futs[pool.submit(run_shard_in_fresh_interpreter, prop_id, seed, s, tier, tcfg["examples"], timeout,
+                             HASHSEEDS[s % 2])] = ("main", s)
         for s in range(min(det_n, tcfg["shards"])):
-            pool = pools[(s + 1) % 2]      # the other hash seed, another interpreter
-            futs[pool.submit(run_shard, prop_id, seed, s, tier, tcfg["examples"], timeout)] = ("det", s)
+            # the same shard once more, in another interpreter under the other hash seed
+            futs[pool.submit(run_shard_in_fresh_interpreter, prop_id, seed, s, tier, tcfg["examples"], timeout,
+                             HASHSEEDS[(s + 1) % 2])] = ("det", s)
         deadline = t0 + tcfg.get("budget_s", 10 ** 9)
         for fut in cf.as_completed(futs):
             kind, s = futs[fut]
@@ -362,8 +399,7 @@ def run_check(prop_id, tier, seed=None, workers=None, shards=None, examples=None
                 for f2 in futs:
                     f2.cancel()
     finally:
-        for p in pools:
-            p.shutdown(wait=True, cancel_futures=True)
+        pool.shutdown(wait=True, cancel_futures=True)
 
     # 3. determinism slice
     det_ok = True
@@ -386,6 +422,11 @@ def run_check(prop_id, tier, seed=None, workers=None, shards=None, examples=None
             ok, txt = confirm_in_fresh_interpreter(path, clauses)
             if not ok and any("narrow" in v for v in r["violation"]["violations"]):
                 path = write_replay(prop_id, seed, s, r["violation"], r["cfg"], use_narrow=False)
+                ok, txt = confirm_in_fresh_interpreter(path, clauses)
+            if not ok:
+                # the failure needs the history of the interpreter that found it (state carried from earlier worlds
+                # of the shard): the replay is then the whole shard, which is deterministic in a fresh interpreter
+                path = write_shard_replay(prop_id, seed, s, tier, tcfg["examples"], r["violation"], r["cfg"])
                 ok, txt = confirm_in_fresh_interpreter(path, clauses)
             if ok:
                 if len(violations) < 5:
